@@ -66,7 +66,7 @@ def _tool_versions():
     if _tv is None:
         a = _run([CLANG, '--version']).stdout.splitlines()[0]
         b = _run(['verilator', '--version']).stdout.strip()
-        _tv = a + '|' + b + '|fe3'
+        _tv = a + '|' + b + '|fe4'
     return _tv
 
 
@@ -264,6 +264,10 @@ def _annotate(node, st):
                 continue
             if isinstance(v, (dict, list)):
                 _annotate(v, st)
+        inner = node.get('inner')
+        if isinstance(inner, list) and any(isinstance(c, dict) and str(c.get('kind', '')).endswith('Comment') for c in inner):
+            # documentation comments are children of the declaration they describe: not part of the program
+            node['inner'] = [c for c in inner if not (isinstance(c, dict) and str(c.get('kind', '')).endswith('Comment'))]
     elif isinstance(node, list):
         for v in node:
             _annotate(v, st)
